@@ -1,0 +1,5 @@
+//go:build !verif
+
+package otto
+
+func (rt *runtime) verifStep(int) {}
